@@ -319,6 +319,100 @@ def check_fallback_duration(ck, fn, main_paths, deep=False):
     ck.floor('moves evaluated against the constant-duration paths', n_eval, 300)
 
 
+def check_reversal_positions(ck, fn, main_paths, deep=False):
+    """D13 - D10 read concretely: on a grid of moves that reverse inside the move the reported
+    position equals the one that follows from the steps made before the reversal, s =
+    FLOOR(|C(T)|/2^31) with the accumulator polynomial of D3 at the reversal tick T = FLOOR(1/2 -
+    rate/accel): sign(r_1)*steps if s >= steps, sign(accel)*steps if s = 0, else sign(r_1)*(2s -
+    steps).  D10 compares the *form* of s on the paths that carry it; a path that takes s for 0
+    (or does not compute it) for some reversal tick carries no such form - this rule finds the
+    input.  Explicit start accumulators are included: a step on tick 1 needs one near roll-over."""
+    from fractions import Fraction
+    import math
+    q = fn.qualname
+    rates = (3, -3, 11, -44, 27, 1000, -1000, -59220729, 59220729)
+    accels = (3, -3, -19, 44, -1, 1000, -1000, 77352579, -77352579)
+    grid = [(sv, rv, av) for sv in ((1, 2, 3, 5, 9) if deep else (1, 2, 5))
+            for rv in rates for av in accels]
+    accums = (0, 2 ** 31 - 1, 2 ** 30)
+    paths = []
+    for o, cut, mode in main_paths:
+        if mode != 'numeric' or not (isinstance(o.value, Tup) and len(o.value.items) == 3
+                                     and isinstance(o.value.items[1], Sym)):
+            continue
+        conds = []
+        for c_, t_ in o.state.path:
+            nc = motion.norm_path_cond(c_, t_)
+            if nc is None:
+                conds = None
+                break
+            conds.append((nc[0].fingerprint(), nc[1], nc[0]))
+        if conds is None:
+            continue
+        conds.sort(key=lambda c: len(c[2].all_atoms()))
+        paths.append((conds, o.value.items[1]))
+    sgn = lambda x: (x > 0) - (x < 0)
+    witness = None
+    n_eval = 0
+    poly.APPROX_SQRT[0] = True
+    try:
+        for sv, rv, av in grid:
+            r1 = rv - int(Fraction(av, 2)) + av          # int() of a Fraction truncates
+            if av == 0 or r1 == 0 or sgn(r1) == sgn(av):
+                continue
+            t_rev = math.floor(Fraction(1, 2) - Fraction(rv, av))
+            if t_rev < 1:
+                continue
+            for acc in accums:
+                start = acc - (2 ** 31 - 1) if r1 < 0 else acc
+                c_t = start + (Fraction(rv) + Fraction(av, 2) - int(Fraction(av, 2))) * t_rev + \
+                    Fraction(av) * t_rev * t_rev / 2
+                s_true = math.floor(abs(c_t) / 2 ** 31)
+                if s_true >= sv:
+                    want = sgn(r1) * sv
+                elif s_true == 0:
+                    want = sgn(av) * sv
+                else:
+                    want = sgn(r1) * (2 * s_true - sv)
+                asg = {'steps': Fraction(sv), 'rate': Fraction(rv), 'accel': Fraction(av),
+                       'accum': Fraction(acc)}
+                cache = {}
+                for conds, pos in paths:
+                    ok = True
+                    for fp, op, e in conds:
+                        if fp not in cache:
+                            try:
+                                cache[fp] = e.evaluate(asg)
+                            except (ZeroDivisionError, KeyError, ValueError, OverflowError):
+                                cache[fp] = None
+                        if cache[fp] is None or not motion._holds(cache[fp], op):
+                            ok = False
+                            break
+                    if not ok:
+                        continue
+                    n_eval += 1
+                    try:
+                        got = pos.evaluate(asg)
+                    except (ZeroDivisionError, KeyError, ValueError, OverflowError):
+                        break
+                    if got != want and witness is None:
+                        witness = (sv, rv, av, acc, got, want, t_rev, s_true)
+                    break
+                if witness:
+                    break
+            if witness:
+                break
+    finally:
+        poly.APPROX_SQRT[0] = False
+    w = witness or (0,) * 8
+    ck.ob('C03-D13-reversal-position', q, witness is None,
+          'calculate_lm(%s, %s, %s, %s) reports position %s; the rate changes sign after tick %s, '
+          'by then the accumulator polynomial has made %s step(s) in the initial direction, so '
+          'the move ends at position %s' % (w[0], w[1], w[2], w[3], w[4], w[6], w[7], w[5]),
+          fn.loc(), key='calculate_lm::reversal-position')
+    ck.floor('reversing moves evaluated for their position', n_eval, 40)
+
+
 def check_root_guard(ck, fn, main_paths):
     """D8: the roots of the duration quadratic are computed for every non-negative discriminant.
     A path that skips the square root may do so only under discriminant < 0 (no real root); a
@@ -753,6 +847,7 @@ def run(ck, prog, tier):
     check_reversal_classification(ck, fn, main_paths)
     check_reversal_claims(ck, fn, main_paths)
     check_fallback_duration(ck, fn, main_paths, deep=(tier == 'thorough'))
+    check_reversal_positions(ck, fn, main_paths, deep=(tier == 'thorough'))
     check_root_positive(ck, fn, main_paths)
     check_steps_before_reversal(ck, fn, main_paths)
     n_paths, n_ops = motion.check_precision(ck, 'C03-D5-precision', fn, all_out)
